@@ -219,11 +219,19 @@ def run(ctx):
                         "problem functions, direction provider, stop flag and clock are arbitrary oracles in the theorems",
                         "oracle coherence (eval_ψ_grad_ψ(x) = (eval_ψ(x), eval_grad_L(x, ŷ(x)))) is a stated hypothesis of the ψ(x)/∇ψ(x) clause of the invariant only",
                         "time_elapsed > max_time is modelled as an input flag; exceptions thrown by user functions are not modelled"]
-    import os
-    if os.path.exists(os.path.join(COQ, "theories", "Properties_PANOC.v")):
-        check_properties(ctx)
+    check_properties(ctx, "PANOC")
+    run_corr(ctx, "PANOC", 1.0)
+
+def attach(ctx, scale=0.35):
+    """used by C01 / C03 / C05 / C06: re-check Properties_PANOC.v (whole-loop invariants of PANOC for all oracles) and run the
+    whole-run correspondence of Panoc.v against the real PANOCSolver; violations get the calling property's prefix"""
+    check_properties(ctx, "PANOC")
+    ctx.assumptions.append("PANOC whole-loop model (Panoc.v, theorems in Properties_PANOC.v) attached: whole runs of PANOCSolver<ScriptedDirection> must coincide with the verified model at binary64")
+    run_corr(ctx, ctx.pid, scale)
+
+def run_corr(ctx, prefix, scale):
     if not build_driver(ctx, "solve"): return
-    cases = gen_dyadic(ctx) + gen_noprogress(ctx, ctx.n(12, 60)) + gen_random(ctx, ctx.n(260, 3000))
+    cases = gen_dyadic(ctx) + gen_noprogress(ctx, max(4, int(scale * ctx.n(12, 60)))) + gen_random(ctx, max(40, int(scale * ctx.n(260, 3000))))
     outs = run_driver(ctx, "solve", "".join(c.rq.to_input() for c in cases), timeout=1500)
     if outs is None or len(outs) != len(cases):
         ctx.broke("correspondence", "drv_solve", "driver produced %s results for %d runs rc=%s %s" % (None if outs is None else len(outs), len(cases), getattr(ctx, "driver_rc", "?"), getattr(ctx, "driver_err", "")))
@@ -232,7 +240,7 @@ def run(ctx):
     for cs, o in zip(cases, outs):
         ctx.count(cs.tag)
         for sig, msg in oracle(cs, o):
-            ctx.violation(sig, msg, {"driver": "drv_solve", "input": cs.rq.to_input(), "request": cs.rq.describe(), "impl_output": {k: v for k, v in o.items() if k != "records"}, "why": msg})
+            ctx.violation(sig.replace("PANOC:", prefix + ":panoc-model:") if prefix != "PANOC" else sig, msg, {"driver": "drv_solve", "input": cs.rq.to_input(), "request": cs.rq.describe(), "impl_output": {k: v for k, v in o.items() if k != "records"}, "why": msg})
         if "exc" in o:
             ctx.count("exception"); continue
         recs = o["records"]
@@ -248,8 +256,8 @@ def run(ctx):
                  sample=({"request": cs.rq.describe(), "status": o["status"], "iterations": o["iterations"], "records": len(recs)} if len(recs) > 3 else None))
         ctx.count("status/" + o["status"])
         terms.append(coq_case(cs, o)); owners.append((cs, o))
-    failing = coq_failing_cases(ctx, "run", "Prox SolverStatus SolverKernels AugLag Panoc Corr_PANOC", "pcase", "chkpanoc", terms, shard=ctx.n(12, 60), dump="modelpanoc")
-    ctx.coverage["correspondence_cases"] = len(terms)
+    failing = coq_failing_cases(ctx, "panocrun", "Prox SolverStatus SolverKernels AugLag Panoc Corr_PANOC", "pcase", "chkpanoc", terms, shard=ctx.n(12, 60), dump="modelpanoc")
+    ctx.coverage["panoc_whole_run_cases"] = len(terms)
     if failing is None:
         return
     real, ties = [], 0
@@ -260,12 +268,12 @@ def run(ctx):
             ties += 1; ctx.count("discarded-near-tie/" + t)
         else:
             real.append(i)
-    ctx.coverage["correspondence_disagreements"] = len(real)
+    ctx.coverage["panoc_whole_run_disagreements"] = len(real)
     ctx.coverage["discarded_near_ties"] = ties
     if real:
         cs, o = owners[real[0]]
         # the model is PROVED to satisfy the invariants; an input on which the implementation leaves the model's trajectory is a concrete failing input
-        ctx.violation("PANOC:run-differs-from-verified-model", "whole run of PANOCSolver differs from the verified model Panoc.panoc (first of %d disagreeing runs; status=%s iterations=%s)" % (len(real), o.get("status"), o.get("iterations")),
+        ctx.violation(("%s:panoc-" % prefix if prefix != "PANOC" else "PANOC:") + "run-differs-from-verified-model", "whole run of PANOCSolver differs from the verified model Panoc.panoc (first of %d disagreeing runs; status=%s iterations=%s)" % (len(real), o.get("status"), o.get("iterations")),
                       {"driver": "drv_solve", "input": cs.rq.to_input(), "request": cs.rq.describe(), "impl_output": {k: v for k, v in o.items() if k != "records"},
                        "model_dump": getattr(ctx, "last_dump", "")[-3000:], "why": "model (Coq, binary64) and implementation disagree on this run"})
         ctx.broke("correspondence", "Panoc.v (whole run) vs PANOCSolver<ScriptedDirection> in drv_solve",
